@@ -70,6 +70,7 @@ def _param_only_in_part(F):
     """a supplied parameter that is referenced only inside an included part"""
     sup = {s["p"] for s in F["supN"]} | {s["p"] for s in F["supS"]}
     inpart, outside = set(), set()
+    outside.update((F["ibody"]["p"] if F["indices"] else "", F["tbody"]["p"] if F["tkind"] else ""))
     (inpart if "ops" in F["parts"] else outside).update(p for o in F["ops"] for p in (o["bulk"]["p"], o["xp"]["p"]))
     tgt = inpart if "corpora" in F["parts"] else outside
     for k in F["corpora"]:
@@ -102,6 +103,7 @@ def _signature(case, clauses, out_kind):
         sig["rejected_as"] = out_kind or "loaded"
         sig["supplied_param_only_in_included_part"] = _param_only_in_part(case["f"])
         sig["nested_include"] = any(k in case["f"]["parts"] for k in ("opsN", "sched", "docs"))
+        sig["param_in_index_body_or_template_file"] = bool((case["f"]["ibody"]["p"] and case["f"]["indices"]) or (case["f"]["tkind"] and case["f"]["tbody"]["p"]))
     return sig
 
 
@@ -153,7 +155,7 @@ def _minimal(**task_fields):
     el = {"par": False, "cb": "", "tasks": [t]}
     for k in tg.EL_NUM:
         el[k] = dict(tg.NOVAL)
-    return {"form": "schedule", "chals": [{"name": "", "dflt": "abs", "sched": [el]}], "ops": [], "corpora": [], "indices": [], "streams": [], "supN": [], "supS": [], "parts": [], "refs": [], "tight": False, "defect": dict(tg.NODEFECT)}
+    return {"form": "schedule", "chals": [{"name": "", "dflt": "abs", "sched": [el]}], "ops": [], "corpora": [], "indices": [], "streams": [], "supN": [], "supS": [], "parts": [], "refs": [], "tight": False, "defect": dict(tg.NODEFECT), "ibody": dict(tg.NOVAL), "tkind": "", "tbody": dict(tg.NOVAL)}
 
 
 def probe_loader(root):
@@ -203,6 +205,7 @@ def run(ctx, out):
     out.assumptions = [
         "Jinja2, the json module and the jsonschema library are trusted (jsonschema's self-check of the constant track schema is run once per distinct schema, not per load)",
         "the track format is exercised through the constructs the harness renders: literal values, {{ p | default(v) }} parameters (numbers, task names, inside strings), "
+        "an index body file and a composable / component / legacy template file with parameters of their own, strings with & < > ' (names, tags, supplied string parameters), "
         "the helper macro rally.exists_set_param (with / without default_value, comma=True / False; user values absent, 0, false, '', truthy), "
         "rally.collect(parts=...) includes with and without blanks inside the braces, one and two levels deep (second-level pattern relative to the including part's directory), operations by name / by type / inline, single-string or list tags, shuffled keys, "
         "optional version / description; index / template bodies, custom parameter sources and track plugins are not exercised",
@@ -244,7 +247,7 @@ def run(ctx, out):
     lap("model checking and self-tests done")
     # ---- S2C: reachable files -> real track directories -> real loader
     dump_file = dump + ".dump" if os.path.exists(dump + ".dump") else dump
-    cases, per_rule, nstates = cases_from_dump(ctx, dump_file, rnd, {"none": 1200} if ctx.quick else {"none": 25000}, 80 if ctx.quick else 2000)
+    cases, per_rule, nstates = cases_from_dump(ctx, dump_file, rnd, {"none": 1000} if ctx.quick else {"none": 25000}, 60 if ctx.quick else 2000)
     if nstates != res.distinct:
         raise tlc.MachineryError("dump has %d states, TLC reported %d" % (nstates, res.distinct))
     missing = [r for r in L1_RULES if per_rule.get(r, 0) == 0]
@@ -255,7 +258,7 @@ def run(ctx, out):
     sims = cases_from_sim(res_sim, simdir, out, rnd)
     out.note("leg S2C: %d TLC -simulate behaviours (wide alphabets, valid for 5 builder steps, then up to 9 more; mean size of the final file %.1f)" % (len(sims), sum(tg.size(c["f"]) for c in sims) / max(1.0, float(len(sims)))))
     lap("simulation done")
-    rnds = random_cases(ctx.seed + 1010, 400 if ctx.quick else 8000)
+    rnds = random_cases(ctx.seed + 1010, 300 if ctx.quick else 8000)
     allcases = cases + sims + rnds
 
     root = os.path.join(tlc.scratch("c10tracks"), "t")
